@@ -72,8 +72,17 @@ Definition is_instance_of (e other : ent) : bool :=
   | _ => false
   end.
 
-(* search.rs: pub fn is_reference(ent, other) *)
+(* search.rs: pub fn is_reference(ent, other).  Since the `fix:` commit 28f6f63 the instance test is taken
+   modulo `declaration()`: an instance (InstanceOf decl) is also related to what is DeclaredBy decl
+   (subprogram body, full declaration of a deferred constant). *)
 Definition is_reference (e other : ent) : bool :=
+  if ent_id e =? ent_id other then true
+  else if is_instance_of e (declaration other) || is_instance_of other (declaration e) then true
+  else if is_declared_by e other || is_declared_by other e then true
+  else false.
+
+(* the code before 28f6f63: references through a package instance missed the body side *)
+Definition is_reference_old (e other : ent) : bool :=
   if ent_id e =? ent_id other then true
   else if is_instance_of e other || is_instance_of other e then true
   else if is_declared_by e other || is_declared_by other e then true
@@ -82,7 +91,7 @@ Definition is_reference (e other : ent) : bool :=
 (* `is_reference` with the DeclaredBy test dropped: a seeded defect, kept for a refutation *)
 Definition is_reference_no_declared_by (e other : ent) : bool :=
   if ent_id e =? ent_id other then true
-  else if is_instance_of e other || is_instance_of other e then true
+  else if is_instance_of e (declaration other) || is_instance_of other (declaration e) then true
   else false.
 
 (* Two entity records that no function of this development can tell apart: same id, same kind of
